@@ -18,7 +18,7 @@ Definition dec_ctx (t : str) : ctx :=
   else if tok_is t "procin" then CProcSubstIn else if tok_is t "procout" then CProcSubstOut
   else CCoproc.
 
-(** mut := "F" field value | "U" z | "L" z | "X" n | "S" ctx n mut* *)
+(** mut := "F" field value | "U" z | "L" z | "X" n | "R" n | "C" n mut* | "S" ctx n mut* *)
 Fixpoint dec_mut (fuel : nat) (a : list str) : mut * list str :=
   match fuel with
   | O => (MExit 0, [])
@@ -30,6 +30,20 @@ Fixpoint dec_mut (fuel : nat) (a : list str) : mut * list str :=
           else if tok_is t "U" then match r with z :: r' => (MUmask (dec_Z z), r') | [] => (MExit 0, []) end
           else if tok_is t "L" then match r with z :: r' => (MUlimit (dec_Z z), r') | [] => (MExit 0, []) end
           else if tok_is t "X" then match r with z :: r' => (MExit (dec_Z z), r') | [] => (MExit 0, []) end
+          else if tok_is t "R" then match r with z :: r' => (MReturn (dec_Z z), r') | [] => (MExit 0, []) end
+          else if tok_is t "C" then
+            match r with
+            | n :: r' =>
+                let '(body, r'') :=
+                  (fix go (k : nat) (a : list str) : list mut * list str :=
+                     match k with
+                     | O => ([], a)
+                     | S k' => let '(x, a') := dec_mut fuel a in
+                               let '(xs, a'') := go k' a' in (x :: xs, a'')
+                     end) (dec_nat n) r' in
+                (MCall body, r'')
+            | _ => (MExit 0, [])
+            end
           else if tok_is t "S" then
             match r with
             | c :: n :: r' =>
@@ -70,13 +84,21 @@ Fixpoint content_eqb (a b : content) : bool :=
   | _, _ => false
   end.
 
-(** args: umask0 nofile0 mut* *)
+Fixpoint has_char (c : N) (s : str) : bool :=
+  match s with [] => false | x :: r => N.eqb x c || has_char c r end.
+
+(** option letters: l = lastpipe, m = set -m, p = pipefail *)
+Definition dec_opts (s : str) : popts := mkOpts (has_char 108 s) (has_char 109 s) (has_char 112 s).
+
+(** args: umask0 nofile0 opts mut* *)
 Definition entry_c12 (a : list str) : list str :=
   match a with
-  | u0 :: n0 :: r =>
+  | u0 :: n0 :: os :: r =>
       let w0 : world := (init_state, mkPg (dec_Z u0) (dec_Z n0) []) in
-      let '(w1, fl) := run_list (dec_muts (length r) r) w0 in
-      match fl with Exited => [lit "exited"] | Go =>
+      let '(w1, fl) := run_list (dec_opts os) (dec_muts (length r) r) w0 in
+      match fl with
+      | Exited => [lit "exited"]
+      | _ =>
       map (fun f => enc_bool (negb (content_eqb (cget f (fst w1)) (cget f (fst w0))))) observed
       ++ [show_Z (pg_umask (snd w1)); show_Z (pg_nofile (snd w1))]
       end
